@@ -1,32 +1,35 @@
-(** C13 — the theorems: progress (flat / spawn-only / repaired rule), determinism, FIFO channels *)
+(** C13 — the theorems: progress, determinism, FIFO channels *)
 From Coq Require Import List NArith Bool Arith Lia.
 From UV Require Import Model.Pool Proofs.PoolShape Proofs.PoolProgress Proofs.PoolInv.
 Import ListNotations.
 
 (** * Progress *)
-Theorem pool_progress_flat m prog sched :
-  1 <= m -> pure prog = true -> flat prog = true ->
-  let st := run sched (init m false prog) in
-  final st = false -> exists t, step st t <> None.
-Proof.
-  intros M P F st NF. apply inv_progress; auto. apply inv_run. apply inv_init; auto. right. left. auto.
-Qed.
-
-Theorem spawn_progress m prog sched :
-  1 <= m -> pure prog = true -> nopool prog = true ->
-  let st := run sched (init m false prog) in
-  final st = false -> exists t, step st t <> None.
-Proof.
-  intros M P F st NF. apply inv_progress; auto. apply inv_run. apply inv_init; auto. right. right. auto.
-Qed.
-
-(** the repaired admission rule: every side-effect-free program, whatever its nesting *)
-Theorem pool_progress_repaired m prog sched :
+(** the code (admission rule of run.rs:1427-1430, rep = true): every side-effect-free program,
+    whatever its nesting depth and task count *)
+Theorem pool_progress m prog sched :
   1 <= m -> pure prog = true ->
   let st := run sched (init m true prog) in
   final st = false -> exists t, step st t <> None.
 Proof.
   intros M P st NF. apply inv_progress; auto. apply inv_run. apply inv_init; auto.
+Qed.
+
+(** under either admission rule: programs whose pool tasks do not pool (nesting depth 1) ... *)
+Theorem pool_progress_flat m rp prog sched :
+  1 <= m -> pure prog = true -> flat prog = true ->
+  let st := run sched (init m rp prog) in
+  final st = false -> exists t, step st t <> None.
+Proof.
+  intros M P F st NF. apply inv_progress; auto. apply inv_run. apply inv_init; auto. right. left. auto.
+Qed.
+
+(** ... and programs that only spawn *)
+Theorem spawn_progress m rp prog sched :
+  1 <= m -> pure prog = true -> nopool prog = true ->
+  let st := run sched (init m rp prog) in
+  final st = false -> exists t, step st t <> None.
+Proof.
+  intros M P F st NF. apply inv_progress; auto. apply inv_run. apply inv_init; auto. right. right. auto.
 Qed.
 
 (** * Determinism: a finished thread holds the sequential result of its body *)
